@@ -26,6 +26,10 @@ class PathInfeasible(Exception):
     """Raised when an `assume` makes the current path condition unsatisfiable."""
 
 
+class PathEnd(Exception):
+    """End of an auxiliary proof path (loop preservation, a scoped comparison, ...)."""
+
+
 class PyRaise(Exception):
     """The analysed program raises a Python exception of (class name) `etype`."""
 
@@ -152,12 +156,14 @@ class Ctx:
         self.pc.append(f)
         self.solver.add(f)
 
-    def fact(self, f):
-        """A definitional fact (sound extension); same as assume but never pruned."""
+    def fact(self, f, heavy=False):
+        """A definitional fact (sound extension).  heavy: non-linear facts are kept out of the
+        branch-feasibility solver (less pruning, much faster) but are part of every obligation."""
         if isinstance(f, bool):
             return
         self.pc.append(f)
-        self.solver.add(f)
+        if not heavy:
+            self.solver.add(f)
 
     def check_sat(self, extra=None):
         self.n_branch_queries += 1
@@ -181,6 +187,20 @@ class Ctx:
         if z3.is_false(f):
             return False
         return self.check_sat(z3.Not(f)) == z3.unsat
+
+    def is_valid_full(self, f, timeout_ms=5000):
+        """validity under the complete path condition (including heavy, non-linear facts)"""
+        if isinstance(f, bool):
+            return f
+        s = z3.Solver()
+        s.set("timeout", timeout_ms)
+        for g in self.pc:
+            s.add(g)
+        for h in self.hyps:
+            if not isinstance(h, bool):
+                s.add(h)
+        s.add(z3.Not(f))
+        return s.check() == z3.unsat
 
     # -- branching ---------------------------------------------------------------
     def branch(self, cond) -> bool:
@@ -233,6 +253,15 @@ class Ctx:
         o = Obligation(oid, kind, label, list(self.pc) + hyps, goal, meta, path, expect_sat)
         self.obls.append(o)
         return o
+
+    def subproof(self, hyp, fn):
+        """Run fn() on a dedicated auxiliary proof path on which `hyp` is assumed (so that branch
+        decisions may depend on it); the main path continues without the assumption."""
+        flag = self.fresh_bool("subproof")
+        if self.branch(flag):
+            self.assume(hyp)
+            fn()
+            raise PathEnd()
 
     def hypothesis(self, f):
         """context manager: obligations emitted inside have `f` as an additional antecedent.
@@ -288,6 +317,9 @@ class Engine:
                 try:
                     outcome = body(ctx)
                     results.append(PathResult(ctx.decisions, ctx.obls, outcome, ctx.notes,
+                                              queries=ctx.n_branch_queries))
+                except PathEnd:
+                    results.append(PathResult(ctx.decisions, ctx.obls, ("aux", None), ctx.notes,
                                               queries=ctx.n_branch_queries))
                 except PathInfeasible:
                     # obligations generated before the contradiction was noticed hold vacuously,
